@@ -25,6 +25,8 @@ def scenarios(pid, quick, rng):
         S.append(dict(name="clone-of-snapshot", rf=1, steps=syslib.clone_scenario()))
         S.append(dict(name="clone-with-stalled-source", rf=1, steps=syslib.clone_with_stalled_source()))
         S.append(dict(name="clone-with-failing-reload", rf=1, steps=syslib.clone_with_failing_reload()))
+        S.append(dict(name="clone-with-failing-copy", rf=1, steps=syslib.clone_with_failing_copy()))
+        S.append(dict(name="clone-process-dies-during-copy", rf=1, steps=syslib.clone_process_dies_during_copy()))
         if not quick:
             for i in range(6):
                 S.append(dict(name="clone-again-%d" % i, rf=1, steps=syslib.clone_scenario()))
